@@ -10,6 +10,7 @@ R17.5 T-PURE: averaging rules do not write into the (cached) mobility / phase-fr
 from __future__ import annotations
 import ast
 from .. import astutil as U
+from ..symfield import SymExec, const, show
 from ..formula import single_defs, inline
 from ..source import AnalysisError, AnchorMissing
 
@@ -87,8 +88,28 @@ def r171(repo, ctx):
     ctx.floor('R17.1', n, 4)
     # producer: rows follow the composition sets
     f = repo.func(DP, '_computeSingleMobility')
-    txt = U.src(f)
-    ok = 'MobilityData(' in txt and 'phases=phases' in txt.replace(' ', '') and 'cs.phase_record.phase_name' in txt
+    # the `phases` field of the record derives (through local assignments) from the phase names of the composition sets
+    tainted = set()
+    changed = True
+    while changed:
+        changed = False
+        for st in ast.walk(f):
+            if isinstance(st, ast.Assign):
+                src_names = U.names_in(st.value)
+                direct = any(isinstance(n, ast.Attribute) and n.attr == 'phase_name' and isinstance(n.value, ast.Attribute) and n.value.attr == 'phase_record'
+                             for n in ast.walk(st.value))
+                if direct or (src_names & tainted):
+                    for t in U.flat_targets(st):
+                        for nm in U.target_names(t):
+                            if nm not in tainted:
+                                tainted.add(nm)
+                                changed = True
+    ok = False
+    for c in U.calls(f):
+        if U.call_attr(c) == 'MobilityData':
+            ph = U.kwarg(c, 'phases') or (c.args[1] if len(c.args) >= 2 else None)
+            if ph is not None and (U.names_in(ph) & tainted or any(isinstance(n, ast.Attribute) and n.attr == 'phase_name' for n in ast.walk(ph))):
+                ok = True
     ctx.check(ok, 'R17.1', DP, '_computeSingleMobility', f, 'the mobility record carries the names of the stable phases in row order', 'the mobility record no longer carries the stable phase names in row order')
 
 
@@ -123,7 +144,7 @@ def r172_r175(repo, ctx, purity):
     ctx.floor('R17.2', n, 6)
 
 
-def r173(repo, ctx):
+def r173(repo, ctx, index):
     cls = repo.cls(HP, 'HomogenizationParameters')
     consts = {}
     for s in cls.body:
@@ -134,17 +155,26 @@ def r173(repo, ctx):
     want_p = {'NO_POST': '_postProcessDoNothing', 'PREDEFINED': '_postProcessPredefinedMatrixPhase', 'MAJORITY': '_postProcessMajorityPhase', 'EXCLUDE': '_postProcessExcludePhases'}
     for meth, attr, want in (('_setHomogenizationFunctionByID', 'homogenizationFunction', want_h), ('_setPostProcessFunctionByID', 'postProcessFunction', want_p)):
         f = repo.func(HP, f'HomogenizationParameters.{meth}')
+        # the dispatch is executed symbolically for every id (if/elif chains, early returns and loops over a literal table alike)
         got = {}
-        node = f.body[-1] if isinstance(f.body[-1], ast.If) else next((s for s in f.body if isinstance(s, ast.If)), None)
-        while isinstance(node, ast.If):
-            t = node.test
-            key = U.chain(t.comparators[0])[-1] if isinstance(t, ast.Compare) and U.chain(t.comparators[0]) else None
-            for s in node.body:
-                if isinstance(s, ast.Assign) and U.chain(s.targets[0]) == ('self', attr) and isinstance(s.value, ast.Name):
-                    got[key] = s.value.id
-            node = node.orelse[0] if node.orelse and isinstance(node.orelse[0], ast.If) else (node.orelse if False else None) if not (node.orelse and isinstance(node.orelse[0], ast.If)) else node.orelse[0]
-        ctx.check(got == want, 'R17.3', HP, f'HomogenizationParameters.{meth}', f, f'every id selects its namesake function ({len(want)} entries) and unknown ids raise',
+        sx = SymExec(repo, index, (HP, 'HomogenizationParameters'))
+        flds = {k: const(v) for k, v in consts.items()}
+        for key in want:
+            if key not in consts:
+                continue
+            try:
+                outs = [o for o in sx.run(f, args=[const(consts[key])], fields=dict(flds), symbolic=False) if o.status != 'raise']
+            except AnalysisError as e:
+                ctx.undecided('R17.3', HP, f'HomogenizationParameters.{meth}', f, f'dispatch could not be executed symbolically: {e}')
+                outs = []
+            vals = {show(o.fields.get(attr)) for o in outs if attr in o.fields}
+            if len(vals) == 1 and len(outs) >= 1 and all(attr in o.fields for o in outs):
+                got[key] = vals.pop().split(':')[-1]
+        ctx.check(got == want, 'R17.3', HP, f'HomogenizationParameters.{meth}', f, f'every id selects its namesake function ({len(want)} entries)',
                   f'id -> function table is {got}, expected {want}', construct=f'{meth}: {got}')
+        unknown = [o for o in sx.run(f, args=[const(987654)], fields=dict(flds), symbolic=False)]
+        ctx.check(bool(unknown) and all(o.status == 'raise' for o in unknown), 'R17.3', HP, f'HomogenizationParameters.{meth}', f,
+                  'an id that is in no table entry is rejected on every path', 'an unknown id is silently accepted on some path')
         raises = any(isinstance(s, ast.Raise) for s in ast.walk(f))
         ctx.check(raises, 'R17.3', HP, f'HomogenizationParameters.{meth}', f, 'unknown ids are rejected', 'unknown ids are silently accepted')
     f = repo.func(HP, 'HomogenizationParameters._setPostProcessFunctionByStr')
@@ -245,5 +275,5 @@ def check(repo, ctx, index, purity):
                         'in-place completion of undefined mobilities by the post-processing functions is idempotent and not reported']
     r171(repo, ctx)
     r172_r175(repo, ctx, purity)
-    r173(repo, ctx)
+    r173(repo, ctx, index)
     r174(repo, ctx)
